@@ -10,6 +10,10 @@ func simpleGoString(simple string, settings GenerateSettings) string {
 	if alias, ok := settings.importTypeAliases[simple]; ok {
 		return alias
 	}
+	if !isPrimitiveType(simple) {
+		// definitions are declared under their exposed name
+		return exposeName(simple, settings)
+	}
 	return simple
 }
 
